@@ -50,3 +50,4 @@ open CaddyModel.C02
 #print axioms retained_unix_usage_is_one_at_stop
 #print axioms possible_active_is_open
 #print axioms possible_active_after_drain
+#print axioms range_socket_key_eq_single
